@@ -506,6 +506,7 @@ func (res *PropResult) report(p *Program, cfg *PropConfig, tier string, writeBas
 				fmt.Printf("  baseline: dropping %s (%s, %d ms)\n", s.Name, s.Status, s.MaxMs)
 			}
 		}
+		p.writeNames()
 		baseline[cfg.ID] = stable
 		sort.Strings(baseline[cfg.ID])
 		data, _ := json.MarshalIndent(baseline, "", " ")
@@ -610,6 +611,7 @@ func writeEvidence(p *Program, cfg *PropConfig, tier string, res *PropResult, al
 		"known_findings_printed":         knownPrinted,
 		"functions_not_modelled":         res.EngineNotes,
 		"bounded":                        cfg.Bounded,
+		"renamed_identifiers_mapped":     p.renameNotes,
 		"solver_caps":                    fmt.Sprintf("per-obligation wall-clock cap scaled by load factor %.2f; %d timed-out claimed obligations retried with a 4x cap", loadFactor(), res.Retried),
 		"explanation":                    "each obligation is pathcondition ∧ ¬goal checked unsat by an SMT solver, per path of the real function's SSA, for all inputs and all loop iterations (loops are cut at invariants)",
 	}
